@@ -38,15 +38,17 @@ var c17Denoms = [3]string{"uband", "uatom", "ufoo"} // ufoo is never part of the
 type amt3 [3]int64
 
 type c17Op struct {
-	K     string `json:"k"`               // create|deposit|withdraw|activate|deactivate|trigger|fund|end
-	U     int    `json:"u,omitempty"`     // signer (create/deposit/withdraw/fund) or offset from the creator (activate/deactivate/trigger)
+	K     string `json:"k"`               // create|deposit|withdraw|activate|deactivate|trigger|fund|update|end
+	U     int    `json:"u,omitempty"`     // signer (create/deposit/withdraw/fund) or offset from the creator (activate/deactivate/trigger/update)
 	T     int    `json:"t,omitempty"`     // late-bound tunnel: id = 1 + T mod (number of tunnels)
 	Ghost bool   `json:"ghost,omitempty"` // use the first id that does not exist
 	Mode  string `json:"mode,omitempty"`  // none|abs|min|gap|own|other|bal|total : base value the amount is derived from at run time
 	D     amt3   `json:"d,omitempty"`     // per-denom offset from the base (abs: the amount itself)
 	Mask  int    `json:"mask,omitempty"`  // denoms taking part (bit i = c17Denoms[i])
 	Hold  bool   `json:"hold,omitempty"`  // keep the tx for the same block as the next op
-	Seek  bool   `json:"seek,omitempty"`  // withdraw: start from the next account that has a deposit in the tunnel
+	Seek  bool   `json:"seek,omitempty"`  // withdraw: start from the next account that has a deposit in the tunnel; update: start from the next tunnel that is active
+	Sig   string `json:"sig,omitempty"`   // update: same|dev|new|more|fewer|empty|dup : how the new signal deviations derive from the tunnel's current ones
+	Keep  bool   `json:"keep,omitempty"`  // update: keep the tunnel's current interval (else Intv)
 	Route string `json:"route,omitempty"` // tss|ibc
 	Intv  uint64 `json:"intv,omitempty"`
 	NSig  int    `json:"nsig,omitempty"`
@@ -136,7 +138,7 @@ func genC17(rt *rapid.T) c17Case {
 		} else if creates >= 1 {
 			wCreate = 5
 		}
-		k := gen.Pick(rt, "op", wCreate, 26, 24, 15, 5, 3, 5, 13)
+		k := gen.Pick(rt, "op", wCreate, 26, 24, 15, 5, 3, 5, 13, 10)
 		if i == 0 {
 			k = 0
 		}
@@ -195,6 +197,33 @@ func genC17(rt *rapid.T) c17Case {
 		case 6:
 			op.K, op.U = "fund", gen.Uniform(rt, "user", nUsers)
 			op.D[0] = gen.OneOf[int64](rt, "fund", -1, 0, 0, 1, 3)
+		case 8:
+			// MsgUpdateSignalsAndInterval: by the creator (mostly) or by somebody else, on whatever state the tunnel is in
+			op.K = "update"
+			op.U = gen.Pick(rt, "who", 7, 1, 1)
+			op.Seek = gen.Chance(rt, "seekactive", 3, 4)
+			// values the parameters allow, boundaries included: interval in [1, 3600], deviations in [50, 3000] (the hard
+			// deviation of signal i is Dev+i), at most 3 signals ("more"/"fewer" leave the range on their own when the
+			// tunnel already has 3 / only 1)
+			op.Sig = gen.OneOf(rt, "sig", "same", "dev", "dev", "new", "new", "more", "fewer")
+			op.NSig = gen.OneOf(rt, "nsig", 1, 2, 3)
+			op.Dev = gen.OneOf[uint64](rt, "dev", 50, 50, 100, 777, 2998, 2998)
+			op.Intv = gen.OneOf[uint64](rt, "intv", 1, 1, 2, 60, 3599, 3600, 3600)
+			if gen.Chance(rt, "badupdate", 1, 5) { // one field just outside
+				switch gen.Uniform(rt, "bad", 5) {
+				case 0:
+					op.Sig = gen.OneOf(rt, "badsig", "empty", "dup")
+				case 1:
+					op.Sig, op.NSig = "new", 4
+				case 2:
+					op.Dev = gen.OneOf[uint64](rt, "baddev", 49, 2999, 3000, 3001) // 2999/3000: in range for the first signal(s) only
+				case 3:
+					op.Intv = 0
+				default:
+					op.Intv = 3601
+				}
+			}
+			op.Keep = gen.Chance(rt, "keepintv", 1, 5)
 		default:
 			op = c17Op{K: "end", Dt: gen.OneOf(rt, "dt", 1, 1, 1, 5, 61)}
 		}
@@ -205,12 +234,102 @@ func genC17(rt *rapid.T) c17Case {
 
 // ---- reference ledger ----------------------------------------------------------------------------------
 
+type sigDev struct {
+	id         string
+	soft, hard uint64
+}
+
 type refTunnel struct {
 	creator   int
 	dep       [nUsers]amt3
 	active    bool
-	immutable []byte // marshalled tunnel record without IsActive/TotalDeposit
-	sent      bool   // a packet was ever produced/triggered successfully (sequence may move)
+	intv      uint64   // configuration: set by the create message, replaced only by a successful update of the creator
+	sigs      []sigDev //
+	immutable []byte   // marshalled tunnel record without IsActive/TotalDeposit/Interval/SignalDeviations
+	sent      bool     // a packet was ever produced/triggered successfully (sequence may move)
+	// per block
+	strangerUpdate bool // an update signed by somebody else than the creator was refused in this block
+}
+
+func sameSigs(a, b []sigDev) bool {
+	if len(a) != len(b) {
+		return false
+	}
+	for i := range a {
+		if a[i] != b[i] {
+			return false
+		}
+	}
+	return true
+}
+
+func toSignalDeviations(sd []sigDev) []tunneltypes.SignalDeviation {
+	var out []tunneltypes.SignalDeviation
+	for _, s := range sd {
+		out = append(out, tunneltypes.NewSignalDeviation(s.id, s.soft, s.hard))
+	}
+	return out
+}
+
+// Parameters of the module in this world (README "Params"): interval in [1, 3600] s, deviations in [50, 3000] bps,
+// at most 3 signals. cfgValid is what the documentation calls an acceptable configuration; used for statistics only.
+const (
+	pMinInterval, pMaxInterval = 1, 3600
+	pMinDev, pMaxDev           = 50, 3000
+	pMaxSignals                = 3
+)
+
+func cfgValid(sd []sigDev, intv uint64) bool {
+	if len(sd) == 0 || len(sd) > pMaxSignals || intv < pMinInterval || intv > pMaxInterval {
+		return false
+	}
+	seen := map[string]bool{}
+	for _, s := range sd {
+		if seen[s.id] || s.soft < pMinDev || s.soft > pMaxDev || s.hard < pMinDev || s.hard > pMaxDev {
+			return false
+		}
+		seen[s.id] = true
+	}
+	return true
+}
+
+// createSigs is the signal list of a create op.
+func createSigs(o c17Op) []sigDev {
+	var sds []sigDev
+	for i := 0; i < o.NSig; i++ {
+		sds = append(sds, sigDev{fmt.Sprintf("CS:SIG%d-USD", i), o.Dev, o.Dev + uint64(i)})
+	}
+	return sds
+}
+
+// updateSigs derives the signal list of an update op from the tunnel's current one (late-bound).
+func updateSigs(o c17Op, cur []sigDev) []sigDev {
+	var out []sigDev
+	switch o.Sig {
+	case "same":
+		out = append(out, cur...)
+	case "dev": // same signals, new deviations
+		for i, s := range cur {
+			out = append(out, sigDev{s.id, o.Dev, o.Dev + uint64(i)})
+		}
+	case "new": // other signals
+		for i := 0; i < o.NSig; i++ {
+			out = append(out, sigDev{fmt.Sprintf("CS:NEW%d-USD", i), o.Dev, o.Dev + uint64(i)})
+		}
+	case "more": // one more signal (over MaxSignals when the tunnel already has three)
+		out = append(out, cur...)
+		out = append(out, sigDev{fmt.Sprintf("CS:ADD%d-USD", len(cur)), o.Dev, o.Dev})
+	case "fewer":
+		if len(cur) > 0 {
+			out = append(out, cur[:len(cur)-1]...)
+		}
+	case "dup":
+		if len(cur) > 0 {
+			out = append(out, cur[0], cur[0])
+		}
+	case "empty":
+	}
+	return out
 }
 
 func (t *refTunnel) total() amt3 {
@@ -280,6 +399,8 @@ type pendTx struct {
 	signer int
 	tid    uint64
 	amt    amt3
+	sigs   []sigDev // create/update: the configuration in the message
+	intv   uint64
 }
 
 func runC17(c c17Case) *pbt.Verdict {
@@ -287,7 +408,8 @@ func runC17(c c17Case) *pbt.Verdict {
 	tp := tunneltypes.DefaultParams()
 	tp.MinDeposit = toCoins(c.Min)
 	tp.BasePacketFee = toCoins(amt3{c.Fee, 0, 0})
-	tp.MinInterval, tp.MaxInterval, tp.MaxSignals = 1, 3600, 3
+	tp.MinInterval, tp.MaxInterval, tp.MaxSignals = pMinInterval, pMaxInterval, pMaxSignals
+	tp.MinDeviationBPS, tp.MaxDeviationBPS = pMinDev, pMaxDev
 	ch, err := sim.New(sim.Config{
 		NumAccounts: nUsers, Validators: []sim.ValSpec{{Tokens: 10_000_000}}, Tunnel: &tp, MintOff: true,
 		Balance: toCoins(c.Bal),
@@ -310,6 +432,7 @@ func runC17(c c17Case) *pbt.Verdict {
 	var txs [][]byte
 	inapplicable := 0
 	twoDepositors, crossings, crossingsActive := false, 0, 0
+	updActive, updInactive, updNonCreator := 0, 0, 0
 
 	userIdx := func(addr string) int {
 		for i := 0; i < nUsers; i++ {
@@ -360,13 +483,24 @@ func runC17(c c17Case) *pbt.Verdict {
 					if t != nil && !allLE(p.amt, bal[p.signer]) {
 						v.Class("deposit-over-balance-rejected")
 					}
+				case "update":
+					switch {
+					case t == nil:
+					case t.creator != p.signer:
+						t.strangerUpdate = true
+						updNonCreator++
+					case cfgValid(p.sigs, p.intv):
+						v.Count("converse_mismatch_update", 1) // creator, documented-valid configuration, still refused
+					default:
+						v.Class("update-invalid-config-rejected")
+					}
 				}
 				continue
 			}
 			anySuccess = true
 			switch p.op.K {
 			case "create":
-				nt := &refTunnel{creator: p.signer}
+				nt := &refTunnel{creator: p.signer, intv: p.intv, sigs: p.sigs}
 				nt.dep[p.signer] = p.amt
 				bal[p.signer] = sub(bal[p.signer], p.amt)
 				tunnels = append(tunnels, nt)
@@ -427,6 +561,33 @@ func runC17(c c17Case) *pbt.Verdict {
 				if t != nil {
 					t.sent = true
 				}
+			case "update":
+				if t == nil {
+					v.Failf("C17/update-no-tunnel", "update of non-existent tunnel %d accepted", p.tid)
+					return false
+				}
+				if t.creator != p.signer {
+					v.Failf("C17/update-by-stranger", "signals/interval of tunnel %d of user%d updated by user%d", p.tid, t.creator, p.signer)
+					return false
+				}
+				if !cfgValid(p.sigs, p.intv) {
+					v.Count("update_undocumented_config_accepted", 1) // outside the statement
+				}
+				// the statement knows three ways for a tunnel to stop being active (deactivate message, withdrawal below
+				// the minimum, and - outside it - an unfunded fee payer at end-block); an update is none of them: the
+				// reference flag stays as it is
+				if t.active {
+					updActive++
+				} else {
+					updInactive++
+				}
+				if sameSigs(t.sigs, p.sigs) && t.intv == p.intv {
+					v.Count("update_noop_config", 1)
+				}
+				if t.intv != p.intv {
+					v.Count("update_interval_changed", 1)
+				}
+				t.sigs, t.intv = p.sigs, p.intv
 			case "fund":
 				bal[p.signer] = sub(bal[p.signer], p.amt)
 			}
@@ -532,8 +693,27 @@ func runC17(c c17Case) *pbt.Verdict {
 				v.Count("inactive_unexpected", 1)
 				t.active = false
 			}
+			// configuration: what the create message said, replaced only by a successful update of the creator
+			var csigs []sigDev
+			for _, sd := range ct.SignalDeviations {
+				csigs = append(csigs, sigDev{sd.SignalID, sd.SoftDeviationBPS, sd.HardDeviationBPS})
+			}
+			if ct.Interval != t.intv || !sameSigs(csigs, t.sigs) {
+				sig := "C17/tunnel-config"
+				if t.strangerUpdate {
+					sig = "C17/update-by-stranger-left-trace"
+				}
+				v.Failf(sig, "tunnel %d has interval %d signals %v at height %d, reference (create + successful updates by the creator) interval %d signals %v", id, ct.Interval, csigs, res.Height, t.intv, t.sigs)
+			}
+			t.strangerUpdate = false
+			// the record of what was last sent changes only by sending
+			if lp, lerr := k.GetLatestPrices(ctx, id); lerr != nil {
+				v.Failf("C17/latest-prices-missing", "tunnel %d: %v", id, lerr)
+			} else if !t.sent && (len(lp.Prices) != 0 || lp.LastInterval != 0) {
+				v.Failf("C17/latest-prices-changed", "tunnel %d never sent a packet but its latest-prices record is %v", id, lp)
+			}
 			// everything else in the tunnel record is immutable in this world (no packet is ever sent)
-			ct.IsActive, ct.TotalDeposit = false, nil
+			ct.IsActive, ct.TotalDeposit, ct.Interval, ct.SignalDeviations = false, nil, 0, nil
 			bz, merr := cdc.Marshal(&ct)
 			if merr != nil {
 				v.Failf("harness", "marshal tunnel: %v", merr)
@@ -598,8 +778,17 @@ func runC17(c c17Case) *pbt.Verdict {
 			tid = uint64(1 + o.T%len(tunnels))
 			t = tunnels[tid-1]
 		}
+		if o.K == "update" && t != nil && o.Seek {
+			// late-bound: the next tunnel that is active according to the reference
+			for j := 0; j < len(tunnels); j++ {
+				if cand := (int(tid) - 1 + j) % len(tunnels); tunnels[cand].active {
+					tid, t = uint64(cand+1), tunnels[cand]
+					break
+				}
+			}
+		}
 		signer := o.U % nUsers
-		if o.K == "activate" || o.K == "deactivate" || o.K == "trigger" {
+		if o.K == "activate" || o.K == "deactivate" || o.K == "trigger" || o.K == "update" {
 			if t != nil {
 				signer = (t.creator + o.U) % nUsers
 			}
@@ -673,16 +862,16 @@ func runC17(c c17Case) *pbt.Verdict {
 		}
 		who := ch.Users[signer]
 		var msg sdk.Msg
+		var cfgSigs []sigDev
+		var cfgIntv uint64
 		switch o.K {
 		case "create":
 			if len(tunnels)+countCreates(pending) >= 3 {
 				inapplicable++
 				continue
 			}
-			var sds []tunneltypes.SignalDeviation
-			for i := 0; i < o.NSig; i++ {
-				sds = append(sds, tunneltypes.NewSignalDeviation(fmt.Sprintf("CS:SIG%d-USD", i), o.Dev, o.Dev+uint64(i)))
-			}
+			cfgSigs, cfgIntv = createSigs(o), o.Intv
+			sds := toSignalDeviations(cfgSigs)
 			var m *tunneltypes.MsgCreateTunnel
 			var merr error
 			if o.Route == "ibc" {
@@ -705,6 +894,17 @@ func runC17(c c17Case) *pbt.Verdict {
 			msg = tunneltypes.NewMsgDeactivate(tid, who.Addr.String())
 		case "trigger":
 			msg = tunneltypes.NewMsgTriggerTunnel(tid, who.Addr.String())
+		case "update":
+			cfgIntv = o.Intv
+			if t != nil {
+				cfgSigs = updateSigs(o, t.sigs)
+				if o.Keep {
+					cfgIntv = t.intv
+				}
+			} else {
+				cfgSigs = updateSigs(o, createSigs(o))
+			}
+			msg = tunneltypes.NewMsgUpdateSignalsAndInterval(tid, toSignalDeviations(cfgSigs), cfgIntv, who.Addr.String())
 		case "fund":
 			if t == nil {
 				inapplicable++
@@ -724,7 +924,7 @@ func runC17(c c17Case) *pbt.Verdict {
 			inapplicable++
 			continue
 		}
-		pending = append(pending, pendTx{op: o, signer: signer, tid: tid, amt: amt})
+		pending = append(pending, pendTx{op: o, signer: signer, tid: tid, amt: amt, sigs: cfgSigs, intv: cfgIntv})
 		txs = append(txs, ch.SignTx(who, msg))
 		if !o.Hold {
 			if !flush(1) {
@@ -741,6 +941,18 @@ func runC17(c c17Case) *pbt.Verdict {
 	v.Count("tunnels", int64(len(tunnels)))
 	v.Count("crossings", int64(crossings))
 	v.Count("crossings_active", int64(crossingsActive))
+	v.Count("updates_on_active", int64(updActive))
+	v.Count("updates_on_inactive", int64(updInactive))
+	v.Count("updates_by_non_creator_refused", int64(updNonCreator))
+	if updActive > 0 {
+		v.Class("update-on-active-tunnel")
+	}
+	if updInactive > 0 {
+		v.Class("update-on-inactive-tunnel")
+	}
+	if updNonCreator > 0 {
+		v.Class("update-by-non-creator")
+	}
 	if twoDepositors {
 		v.Class("two-depositors")
 	}
